@@ -46,6 +46,7 @@ Logged ==
   \/ Is("CbEnd") /\ Adv /\ T.i \in In /\ WEnd(T.i, T.res)
   \/ Is("Release") /\ Adv /\ T.i \in In /\ WRelease(T.i)
   \/ Is("Returned") /\ Adv /\ FReturn([out |-> T.out, errs |-> Range(T.errs), nbrk |-> T.nbrk])
+     /\ T.other = <<>> /\ (~cancelled => T.nintr = 0)      \* nothing but callback failures / break flows in the exception
   \/ Is("CancelStart") /\ l' = l + 1 /\ cst = "no" /\ cst' = "started" /\ UNCHANGED vars
   \/ Is("CancelEnd") /\ l' = l + 1 /\ cst = "done" /\ cst' = "over" /\ UNCHANGED vars
 Unlogged ==
